@@ -1,12 +1,14 @@
 #!/usr/bin/env bash
 # selftest/seeds.sh [tier]   applies every seeded defect of /verif/seeded to /repo in turn, runs the
 # property's check (default quick) and expects exit 1; undoes the patch straight afterwards.
+# SEEDS_ONLY=<regex> restricts the run to the seeds whose directory name matches.
 tier="${1:-quick}"
 cd /repo || exit 2
 git diff --quiet || { echo "/repo is dirty"; exit 2; }
 ok=0; bad=0
 for d in /verif/seeded/*/; do
   n=$(basename "$d"); id=${n%%-*}
+  if [ -n "$SEEDS_ONLY" ] && ! [[ "$n" =~ $SEEDS_ONLY ]]; then continue; fi
   other=$(jq -r '.detected_by_check_of // empty' "$d/meta.json" 2>/dev/null); [ -n "$other" ] && id=$other
   if [ -n "$(jq -r '.not_flagged_on_purpose // empty' "$d/meta.json" 2>/dev/null)" ]; then echo "$n: skipped (deliberately not flagged, see meta.json)"; continue; fi
   if [ -n "$(jq -r '.superseded_by_fix // empty' "$d/meta.json" 2>/dev/null)" ]; then echo "$n: skipped (no longer breaks the property since a repair, see meta.json)"; continue; fi
